@@ -75,6 +75,55 @@ def nonempty_frame_rules(F, ok, rep, P):
     rep.floor(P + ".guard", "frame fills", n, 4)
 
 
+def block_size_fits_rule(F, ok, rep, P):
+    """Encoder::encode refuses a frame whose PCM frame count does not fit the 16-bit block size field before anything of it
+    is written or counted (this backs the audited `as u16` / expect("frame cannot be empty") sites of encode_frame: after a
+    failed write the front-ends keep their pending input, so finalize can hand over more than one block)"""
+    b = anchor(F, rep, P + ".guard", "encode::Encoder::encode")
+    if b is None:
+        return
+    conv = [(bi, t) for bi, t in b.calls() if re.search(r"TryFrom<.*>>?::try_from$|TryInto<.*>>?::try_into$", callee_name(t)) and "u16" in " ".join(t["f"].get("args") or []) + (t["f"].get("res") or "")
+            and any(callee_name(c).endswith("Frame::pcm_frames") for c in backward_slice(b, t["a"][0])["calls"])]
+    ef = call_blocks(b, r"encode::encode_frame$")
+    pf = ok.path_facts(b)
+    good = len(conv) >= 1 and len(ef) == 1 and pf.get(ef[0][0], TOP) is not TOP and fact_match(pf.get(ef[0][0], TOP), "call-ok", r"try_from$|try_into$")
+    casts = [1 for bl in b.blocks for s_ in bl["s"] if s_["rv"]["r"] == "cast" and s_["rv"].get("ty") == "u16" and any(callee_name(c).endswith("Frame::pcm_frames") for c in backward_slice(b, s_["rv"]["o"])["calls"])]
+    rep.check(P + ".guard", "Encoder::encode converts the frame's sample count to u16 fallibly before encode_frame (no truncating cast)", good and not casts, loc_of(b), "%d checked conversions, %d casts" % (len(conv), len(casts)),
+              "a frame of 65536 or more samples (pending input after a failed write, flushed by finalize / Drop) reaches encode_frame: its block size is truncated to 16 bits - exactly 65536 panics on expect(\"frame cannot be empty\")")
+
+
+def exact_div_guard_rule(F, ok, rep, P):
+    """encode::exact_div (bytes -> samples -> PCM frames of a declared total) divides only behind `rhs != 0`: the division and
+    the remainder are generic trait calls the interval engine cannot see into, audited as guarded"""
+    b = anchor(F, rep, P + ".guard", "encode::exact_div")
+    if b is None:
+        return
+    bad, n = [], 0
+    for c in [b] + F.closures_of(b):
+        pf = ok.path_facts(c)
+        for bi, t in c.calls():
+            if (t["f"].get("path") or "") not in ("std::ops::Div::div", "std::ops::Rem::rem"):
+                continue
+            n += 1
+            f = pf.get(bi, TOP)
+            guarded = f is not TOP and fact_match(f, "cmp", "^Ne$", "rhs", "Default::default|const:0")
+            if not guarded and c is not b:
+                # lazily evaluated: the closure of bool::then on a condition that includes rhs != 0
+                host = [(hi, h) for hi, h in b.calls() if c.path in [getattr(F.body(x), "path", None) for x in (h.get("cls") or ())]]
+                if len(host) == 1 and re.search(r"bool>?::then$", callee_name(host[0][1])):
+                    # `a && b` is lowered to conditional assignments: the condition is true only where it was assigned
+                    # something other than the constant false, and every such assignment must sit behind rhs != 0
+                    cl = op_local(host[0][1]["a"][0])
+                    pfb = ok.path_facts(b)
+                    ds = [d for d in b.defs().get(cl, []) if not d[2]["d"]["p"]] if cl is not None else []
+                    live = [d for d in ds if not (d[1] != "T" and d[2]["rv"]["r"] == "use" and op_int(d[2]["rv"]["o"]) == 0)]
+                    guarded = bool(live) and all(pfb.get(d[0], TOP) is not TOP and fact_match(pfb.get(d[0], TOP), "cmp", "^Ne$", "rhs", "Default::default|const:0") for d in live)
+            if not guarded:
+                bad.append(c.loc(t["sp"]))
+    rep.check(P + ".guard", "exact_div divides and takes the remainder only behind rhs != 0", not bad and n >= 2, loc_of(b), "%d divisions / remainders" % n,
+              "exact_div evaluates a division by its (possibly zero) divisor unconditionally (%s): a declared total with 0 channels panics instead of being refused" % bad)
+
+
 def _divisor_class(F, body, o):
     out = set()
     places = []
@@ -358,6 +407,8 @@ def run(ctx, rep):
     nonempty_frame_rules(F, ok, rep, "C15")
     declared_total_rules(F, rep, "C15")
     contiguous_bound_rules(F, rep, "C15")
+    exact_div_guard_rule(F, ok, rep, "C15")
+    block_size_fits_rule(F, ok, rep, "C15")
     from rules import C09
     C09.cap_rules(F, rep, "C15", F.statics.get("metadata::SeekTable::MAX_POINTS", {}).get("v"))
 
